@@ -408,8 +408,24 @@ func main() {
 	case "shuffle":
 		rs := rand.New(rand.NewSource(*seed + 977))
 		rs.Shuffle(len(seqOps), func(i, j int) { seqOps[i], seqOps[j] = seqOps[j], seqOps[i] })
+	default:
+		// "lead:<op id>": that call is the FIRST library call of the process, the others follow in forward order
+		// (state that the first caller initialises for everybody shows up as a result that depends on who was first)
+		if strings.HasPrefix(*order, "lead:") {
+			id := (*order)[5:]
+			var lead, rest []op
+			for _, o := range seqOps {
+				if o.id == id {
+					lead = append(lead, o)
+				} else {
+					rest = append(rest, o)
+				}
+			}
+			seqOps = append(lead, rest...)
+		}
 	}
-	for rep := 0; rep < 2 && *phase != "conc"; rep++ {
+	isLead := strings.HasPrefix(*order, "lead:")
+	for rep := 0; rep < 2 && *phase != "conc" && !(isLead && rep > 0); rep++ {
 		for _, o := range seqOps {
 			tr.Emit(event{Ev: "seq", Op: o.id, Res: o.run(), SigIdx: -1})
 		}
@@ -421,7 +437,7 @@ func main() {
 	for g := 0; g < nslots; g++ {
 		scripts[g] = xscript(r)
 		r.Read(xseeds[g][:])
-		if *phase == "conc" {
+		if *phase == "conc" || isLead {
 			continue
 		}
 		x := xmss.NewXMSSFromSeed(xseeds[g], 4, xmss.HashFunction(g%3), common.SHA256_2X)
